@@ -21,7 +21,7 @@
    The deserializers differ per type in three ways that matter for duplicates and are modelled by
    [kind_cfg]: how many set tags (258) they skip (VotingProposals and Vkeywitnesses call skip_set_tag twice), what
    happens on a CBOR "special" that is not a break where an element is expected (is_break_tag => error; the two witness
-   collections assert_eq! => panic) and whether elements are added one by one while reading
+   collections used to assert_eq! => panic, repaired in /repo 795c77b: error; the switch [break_asserts] is kept in the model) and whether elements are added one by one while reading
    (Ed25519KeyHashes, Credentials, Vkeywitnesses: add_move) or collected into a Vec first and
    then passed to from_vec (the other four).  The element codec itself is not part of C16 (C01);
    a wire item is given as the element it decodes to, [IBad] when the element decoder fails. *)
@@ -164,8 +164,8 @@ Definition cfg_of (k : set_kind) : kind_cfg :=
   | KCredentials  => mk_kind false false true
   | KCertificates => mk_kind false false false
   | KProposals    => mk_kind true  false false
-  | KVkeys        => mk_kind true  true  true
-  | KBootstraps   => mk_kind false true  false
+  | KVkeys        => mk_kind true  false true     (* break_asserts was true until /repo 795c77b (assert_eq! replaced by an error) *)
+  | KBootstraps   => mk_kind false false false
   end.
 Definition kind_of_N (n : N) : set_kind :=
   match n with 0 => KTxInputs | 1 => KKeyHashes | 2 => KCredentials | 3 => KCertificates | 4 => KProposals | 5 => KVkeys | _ => KBootstraps end.
